@@ -412,6 +412,20 @@ def handleGenWhere : List String → String
     else "untranslated"
   | _ => "bad-op"
 
+/-- `genmwcp <mdi> <thr> <s_0> … <s_{n-1}>`: the definition regenerated from /repo's
+    `get_moving_window_changepoints` (route T2) on an explicit score curve -/
+def handleGenMwcp : List String → String
+  | mdi :: thr :: scores =>
+    if !(GenL.loop_mw_changepoints_translated && GenL.loop_where_translated) then "untranslated" else
+    match mdi.toNat?, parseRat thr, scores.mapM parseRat with
+    | some mdi, some thr, some sc =>
+      let arr := sc.toArray
+      match GenL.mw_changepoints (fun t => arr.getD t 0) arr.size thr mdi with
+      | some r => toString r
+      | none => "raises"
+    | _, _, _ => "bad-op"
+  | _ => "bad-op"
+
 def handle (line : String) : String :=
   let ws := (line.trimAscii.toString.splitOn " ").filter (· ≠ "")
   match ws with
@@ -425,6 +439,7 @@ def handle (line : String) : String :=
   | "mw" :: rest => handleMw rest
   | "kern" :: rest => handleKern rest
   | "genwhere" :: rest => handleGenWhere rest
+  | "genmwcp" :: rest => handleGenMwcp rest
   | "cutrow" :: rest => handleCutRow rest
   | "statanom" :: rest => handleStatAnom rest
   | "cfg" :: rest => handleCfg rest
